@@ -721,7 +721,7 @@ def run(ck: Check):
             drv.close()
     for sig, (size, what, rep) in sorted(R.fail.items()):
         ck.violation(sig, what, rep)
-    if (not ok or ck.mismatches) and not R.fail:
+    if (not ok or ck.mismatches) and not ck.violations:
         ck.violation("C20:unproved", "C20 theorems or the model/implementation correspondence no longer check; the identities hold on every searched input",
                      {"broken_obligations": broken, "mismatches": ck.mismatches[:5]}, found_input=False)
     elif not ok or ck.mismatches:
